@@ -49,6 +49,8 @@ class ExprPolicy:
         self.import_callee = False
         self.super_callee = False           # callee may be `super` (witnesses are printed inside a derived-class constructor)
         self.str_keys = False               # object-literal keys may be quoted strings (PropName::Str)
+        self.obj_full = False               # object literals may hold spreads, methods, shorthands and computed keys
+        self.pat_full = False               # binding patterns may destructure (arrays / objects with defaults)
         self.private_names = False          # member properties may be private names (`o.#x`)
         self.free_strings = None
         self.concrete_enums = ()
@@ -202,10 +204,12 @@ class ExprPolicy:
         if enum == 'UnaryOp' and self.unary_ops:
             return self.unary_ops
         if enum == 'PropOrSpread':
-            return ['Prop']
+            return ['Prop', 'Spread'] if getattr(self, 'obj_full', False) else ['Prop']
         if enum == 'Prop':
-            return ['KeyValue']
+            return ['KeyValue', 'Method', 'Shorthand'] if getattr(self, 'obj_full', False) else ['KeyValue']
         if enum == 'PropName':
+            if getattr(self, 'obj_full', False):
+                return ['Ident', 'Computed']
             return ['Ident', 'Str'] if self.str_keys else ['Ident']
         return None
 
@@ -620,9 +624,20 @@ class StmtPolicy(ExprPolicy):
         if enum == 'MethodKind':
             return ['Method']
         if enum == 'Pat':
+            if getattr(self, 'pat_full', False):
+                # destructuring: one level of array / object patterns, defaults inside them
+                if owner == 'VarDeclarator' and '.left/VarDecl' not in li.uid:
+                    return ['Ident', 'Array', 'Object']
+                if owner in ('Param', 'ArrowExpr'):
+                    return ['Ident', 'Assign', 'Array', 'Object']
+                if owner in ('ArrayPat', 'KeyValuePatProp'):
+                    return ['Ident', 'Assign']
+                return ['Ident']
             if owner in ('Param', 'ArrowExpr'):
                 return ['Ident', 'Assign']
             return ['Ident']
+        if enum == 'ObjectPatProp':
+            return ['KeyValue', 'Assign']
         if enum == 'VarDeclKind':
             if owner == 'VarDecl' and ('.left/VarDecl' in li.uid):
                 return ['Var', 'Let', 'Const']
